@@ -15,6 +15,146 @@ def snapshot(obj):
     return buf.getvalue()
 
 
+def leaf_paths(node, path=''):
+    """(path, leaf node) pairs, depth first, left before right; the path is the string of L / R turns from the root ('' = the root itself is a leaf)"""
+    if node['type'] == 'leaf':
+        return [(path, node)]
+    return leaf_paths(node['left'], path + 'L') + leaf_paths(node['right'], path + 'R')
+
+
+def uneven_tree_regime(ck, xr):
+    """Trees whose leaves sit on DIFFERENT levels.  The median split halves the rows, so a size-driven tree is level unless the row count of some node
+    straddles max_leaf_size (n = L * 2^k + r with 0 < r < 2^k: r of the 2^k nodes of level k hold L + 1 rows and split once more), and a tree built under a
+    split quota (number_of_splits) spends the quota depth first (quota 2 -> leaf depths 2,2,1; 3 -> 3,3,2,1; ...).  Which shape family / task / encoding /
+    routing / kernel / tree count a fit uses is index arithmetic; the seed only changes L, r and the numbers.  Oracles (of the statement, no model involved):
+      (i)  predict / predict_proba of a fresh model that loaded the state (and of a load of a load) == those of the source model, bitwise, on training rows,
+           fresh rows and far rows;
+      (ii) set accounting per leaf: the leaf reached by the same L/R path in the loaded model holds as centres exactly the training rows that the exported
+           index list of THAT leaf names (X_train[train_indices], recomputed here with numpy), and exactly the centres of the source leaf on that path;
+      (iii) source predictions before == after the export."""
+    rng = np.random.default_rng(ck.seed + 1117)
+    nfits = ck.n(10, 48)
+    kernels = [('l2', {}), ('l1', {}), ('l2_high_dim', {}), ('lpq', dict(norm_p=1.5)), ('l2', {}), ('sum_power_laplace', {})]
+    n_uneven = 0
+    for j in range(nfits):
+        shape = ['size k=1', 'quota', 'size k=2', 'quota', 'size k=3', 'quota + size'][j % 6]
+        task = ['reg', 'class', 'class', 'reg2'][(j + j // 6) % 4]
+        cmode = ['zero_one', 'prevalence'][(j // 2) % 2]
+        routing = ['hard', 'fixed', 'tuned'][(j + j // 3) % 3]
+        kern, extra = kernels[(j + j // 6) % 6]
+        n_trees = 2 if j % 5 == 3 else 1
+        d = int(rng.integers(2, 6))
+        quota = None
+        f = 0.0
+        if shape.startswith('size'):
+            k = int(shape[-1]); L = int(rng.integers(10, 30)) if k < 3 else int(rng.integers(8, 14))
+            r = int(rng.integers(1, 2 ** k)); n = L * 2 ** k + r
+        elif shape == 'quota':
+            quota = [2, 3, 4, 2, 5][(j // 2) % 5]; L = 10_000; n = int(rng.integers(10, 16)) * 2 ** quota + int(rng.integers(0, 4)); r = 0
+            f = 0.1 if j % 4 == 3 else 0.0           # overlapping children: the shape under a quota does not depend on the child sizes
+        else:
+            quota = 2; L = int(rng.integers(20, 40)); r = int(rng.integers(1, L // 2)); n = L + r       # the root has to split by size, the quota then forces one more split on the left
+        X = xr.make_X('random', n, d, rng); y = xr.make_y(task, X, rng)
+        Xv = xr.make_X('random', 80, d, rng); yv = xr.make_y(task, Xv, rng)
+        desc = dict(regime='uneven tree', j=j, shape=shape, n=n, d=d, L=L, r=r, number_of_splits=quota, overlap=f, task=task, cmode=cmode, routing=routing,
+                    kernel=kern, n_trees=n_trees, diag=bool(j % 2), seed=ck.seed)
+        ctor = dict(rfm_params=xr.default_rfm_params(kernel=kern, iters=1, diag=bool(j % 2), bandwidth=3.0, exponent=[1.0, 1.2][(j // 2) % 2], reg=1e-2, **extra),
+                    max_leaf_size=L, number_of_splits=quota, n_trees=n_trees, overlap_fraction=f, verbose=False, classification_mode=cmode,
+                    use_temperature_tuning=(routing == 'tuned'), split_temperature=(0.4 if routing == 'fixed' else None), temp_tuning_space=[0.1, 0.7, 2.5],
+                    refill_size=[20, 4][(j // 3) % 2], **(dict(split_method='linear') if j % 4 == 1 else dict(split_method='pca') if j % 4 == 2 else {}))
+        xr.seed_all(4100 + j + ck.seed)
+        src = xr.xRFM(**copy.deepcopy(ctor))
+        Xt, yt = torch.tensor(X), torch.tensor(y)
+        try:
+            with xr.quiet():
+                src.fit(Xt, yt, torch.tensor(Xv), torch.tensor(yv))
+        except Exception as e:
+            ck.count('uneven-tree regime: fit failed'); ck.notes.append(f'fit failed {desc}: {e!r}'[:200]); continue
+        depths = [[len(p) for p, _ in leaf_paths(t)] for t in src.trees]
+        uneven = any(len(set(dp)) > 1 for dp in depths)
+        n_uneven += uneven
+        desc['leaf_depths'] = depths
+        ck.count(f'uneven-tree regime: {shape}, leaves on ' + ('different levels' if uneven else 'one level'))
+        ck.count(f'uneven-tree regime: routing {routing}, stored T={src.split_temperature is not None}')
+        Qn = np.concatenate([X[:8], X[-4:], xr.make_X('random', 14, d, rng), 50 * xr.make_X('random', 2, d, rng)]).astype(np.float32)
+        Q = torch.tensor(Qn)
+        is_class = task == 'class'
+
+        def outputs(m):
+            with xr.quiet():
+                o = [np.asarray(m.predict(Q))]
+                if is_class:
+                    o.append(np.asarray(m.predict_proba(Q)))
+            return o
+        before = outputs(src)
+        with xr.quiet():
+            sd = src.get_state_dict()
+        after = outputs(src)
+        ck.case(dict(desc), nontrivial=uneven, sample=(j == 0))
+        if any(a.shape != b.shape or not np.array_equal(a, b) for a, b in zip(before, after)):
+            ck.violation(f'get_state_dict changed the predictions of the source model on {desc}', dict(desc), key=json.dumps(dict(site='export-pure')))
+        sd_l = copy.deepcopy(sd)
+        m1 = xr.xRFM(**copy.deepcopy(ctor))
+        try:
+            with xr.quiet():
+                m1.load_state_dict(sd_l, Xt)
+                m2 = xr.xRFM(**copy.deepcopy(ctor))
+                m2.load_state_dict(copy.deepcopy(m1.get_state_dict()), Xt)
+            outs = [('loaded', m1, outputs(m1)), ('load of a load', m2, outputs(m2))]
+        except Exception as e:
+            ck.violation(f'load_state_dict / prediction of the loaded model raised {e!r} on {desc}', dict(desc, error=repr(e)),
+                         key=json.dumps(dict(site='uneven-tree', what='raise')))
+            continue
+        # (ii) per-leaf set accounting, by path
+        for name, m, _ in outs:
+            for ti, (ts, tp, tl) in enumerate(zip(src.trees, sd['param_trees'], m.trees)):
+                ls, lp, ll = leaf_paths(ts), leaf_paths(tp), leaf_paths(tl)
+                if [p for p, _ in ls] != [p for p, _ in lp] or [p for p, _ in ls] != [p for p, _ in ll]:
+                    ck.violation(f'tree {ti} of the {name} model / of the exported state has other leaf paths than the source tree: source {[p for p, _ in ls]}, '
+                                 f'exported {[p for p, _ in lp]}, {name} {[p for p, _ in ll]} on {desc}', dict(desc, which=name, tree=ti),
+                                 key=json.dumps(dict(site='uneven-tree', what='paths')))
+                    continue
+                owner = {}
+                for p_, nd in lp:
+                    owner[np.asarray(nd['train_indices']).reshape(-1).astype(np.int64).tobytes()] = p_
+                for (p_, s_), (_, e_), (_, l_) in zip(ls, lp, ll):
+                    idx = np.asarray(e_['train_indices']).reshape(-1).astype(np.int64)
+                    want = X[idx]                                             # the statement: centres = original training inputs at the exported indices of this leaf
+                    got = np.asarray(l_['model'].centers)
+                    srcc = np.asarray(s_['model'].centers)
+                    if got.shape != want.shape or not np.array_equal(got, want) or not np.array_equal(srcc, want):
+                        whose = [q for q, nd in lp if np.asarray(nd['train_indices']).size == len(got) and got.shape == X[np.asarray(nd['train_indices']).reshape(-1)].shape
+                                 and np.array_equal(got, X[np.asarray(nd['train_indices']).reshape(-1)])]
+                        row = int(np.argmax(np.any(got != want, axis=1))) if got.shape == want.shape else None
+                        held = None if row is None else ([int(t) for t in np.nonzero(np.all(X == got[row][None, :], axis=1))[0][:3]] or 'none')
+                        ck.violation(f'leaf {p_ or "root"} (depth {len(p_)}, {len(idx)} exported indices) of tree {ti}: the {name} model\'s centres '
+                                     + (f'(shape {got.shape}) ' if got.shape != want.shape else '')
+                                     + ('differ from the source leaf\'s centres and ' if not np.array_equal(srcc, got) else '')
+                                     + f'are not X_train[train_indices] of that leaf'
+                                     + (f' — they are the training rows of leaf {whose[0] or "root"}' if whose else '')
+                                     + (f'; centre #{row} should be training row {int(idx[row])} and is training row {held}' if row is not None else '')
+                                     + f'; leaf depths {depths[ti]} on {desc}',
+                                     dict(desc, which=name, tree=ti, leaf=p_, exported_indices=idx.tolist(), expected_row=(want[row].tolist() if row is not None else None),
+                                          held_row=(got[row].tolist() if row is not None else None), held_row_is_training_row=held, X_train=X.tolist()),
+                                     key=json.dumps(dict(site='uneven-tree', what='centres')))
+                        break
+        # (i) predictions, bitwise
+        for name, m, oo in outs:
+            for a, b, what in zip(before, oo, ('predict', 'predict_proba')):
+                if a.shape != b.shape or not np.array_equal(a, b):
+                    if a.shape == b.shape:
+                        dq = np.abs(a.astype(float) - b.astype(float)).reshape(len(Qn), -1).max(axis=1); qi = int(dq.argmax())
+                        where = (f'max diff {float(dq.max())} at query x={Qn[qi].tolist()}: source {np.asarray(a[qi]).tolist()}, {name} {np.asarray(b[qi]).tolist()}; '
+                                 f'{int((dq > 0).sum())}/{len(Qn)} query rows differ')
+                    else:
+                        qi = None; where = f'shapes {a.shape} vs {b.shape}'
+                    ck.violation(f'{what} of the {name} model differs from the source model ({where}); source split_temperature={src.split_temperature}, '
+                                 f'{name} split_temperature={m.split_temperature}; leaf depths {depths} on {desc}',
+                                 dict(desc, what=what, which=name, query=(Qn[qi].tolist() if qi is not None else None), X_train=X.tolist(), y_train=y.tolist()),
+                                 key=json.dumps(dict(site='uneven-tree', what=what)))
+    ck.count('uneven-tree regime: fits with leaves on different levels', n_uneven)
+
+
 def run(ck):
     from harness import xr
     ck.rule = ('(a) attribute-flow traces of predict / predict_proba / get_grads / get_state_dict / load_state_dict / fit regenerated from the source '
@@ -259,6 +399,7 @@ def run(ck):
                                  f'{name} split_temperature={m2.split_temperature if name == "load of a load" else m1.split_temperature} on {desc}',
                                  dict(desc, what=what, which=name, maxdiff=diff, src_T=src.split_temperature),
                                  key=json.dumps(dict(site='roundtrip', tuned_T=(src.split_temperature is not None and tuned), what=what)))
+    uneven_tree_regime(ck, xr)
     if sd_cases:
         res = ck.run_bool_cases('statedict', stateops.RUN_HEADER + sd_defs, sd_cases, shard=9)
         bad = [k for k, v in res.items() if v is not True]
